@@ -24,7 +24,18 @@ namespace ChythonModel.Model.C06
 
 abbrev Path := List Nat
 
-def sortAsc (l : List Nat) : List Nat := l.mergeSort fun a b => decide (a ≤ b)
+/-- stable insertion sort (structural, so that closed terms evaluate by `decide`); `le x y` = "`x` may stand before `y`".
+`x` is inserted before the first `y` with `le x y`, so equal keys keep their order: the result is what Python's stable
+`sorted(..., key=…)` returns for `le a b := key a ≤ key b`. -/
+def insertBy {α : Type} (le : α → α → Bool) (x : α) : List α → List α
+  | [] => [x]
+  | y :: ys => if le x y then x :: y :: ys else y :: insertBy le x ys
+
+def isort {α : Type} (le : α → α → Bool) : List α → List α
+  | [] => []
+  | x :: xs => insertBy le x (isort le xs)
+
+def sortAsc (l : List Nat) : List Nat := isort (fun a b => decide (a ≤ b)) l
 
 /-! ## insertion-ordered dicts -/
 
@@ -136,7 +147,7 @@ def innerUpdate (d new : Inner) : Inner := new.foldl (fun d kv => aset d kv.1 kv
 def compose (a b : Inner) : Inner :=
   (a.zip b).foldl (fun d xy => aset d (xy.1.1.1, xy.2.1.2) (xy.1.2.dropLast ++ xy.2.2)) []
 
-def sortByLenStable (ps : List Path) : List Path := ps.mergeSort fun a b => decide (a.length ≤ b.length)
+def sortByLenStable (ps : List Path) : List Path := isort (fun a b => decide (a.length ≤ b.length)) ps
 
 /-- one chain of the first loop of `_make_pid`; `none` = IndexError (`c[1]` on a path of < 2 atoms) -/
 def pidInitStep (st : Pid1 × Pid2 × Dist) (c : Path) : Option (Pid1 × Pid2 × Dist) :=
@@ -243,7 +254,7 @@ def cSetExpand (e : Nat × List Path × Option (List Path)) : List (Option Ring)
 
 /-- `_c_set(pid1, pid2, dist)`: the generated sequence; an element `none` = the generator raises when it gets there -/
 def cSet (p1 : Pid1) (p2 : Pid2) (d : Dist) : List (Option Ring) :=
-  ((cSetEntries p1 p2 d).mergeSort fun a b => decide (a.1 ≤ b.1)).flatMap cSetExpand
+  (isort (fun a b => decide (a.1 ≤ b.1)) (cSetEntries p1 p2 d)).flatMap cSetExpand
 
 /-! ## `_get_unique_chord`, `_connected_rings` -/
 
